@@ -1,34 +1,50 @@
 """C19 - ROMC regions: samples lie inside, density is 1/volume inside and 0 outside, weights follow.
 
 Functions under contract (real bodies read from the tree at run time):
-  elfi/methods/inference/romc.py  NDimBoundingBox._secure_limits / _compute_volume (any dimension D, loop invariants),
-                                  NDimBoundingBox.sample / contains (D = 1, 2, 3 with ALL matrix / vector entries symbolic:
-                                  the linear algebra R^-1 (R theta + c) - R^-1 c = theta is decided per coordinate in NRA),
-                                  NDimBoundingBox.pdf (any D, modular over contains), line_search (any D, any objective),
-                                  RegionConstructor.build (assembly, D = 1, 2, 3)
-  elfi/methods/posteriors.py      RomcPosterior._sum_over_indicators / _sum_over_regions / _sum_over_regions_indicators
-                                  (any number of problems, counting invariants), _pdf_unnorm_single_point,
-                                  _worker_compute_weight and sample (any number of regions / draws)
+  elfi/methods/inference/romc.py
+    NDimBoundingBox._secure_limits, _compute_volume, pdf     any dimension D (loop invariants; pdf modular over contains)
+    NDimBoundingBox.__init__, sample, contains               D = 1, 2, 3 with EVERY entry of R, R^-1, c, limits, point symbolic
+    line_search                                              any D, any (pure) objective, two cases: start below the threshold / any start
+    RegionConstructor.build                                  assembly, D = 1, 2, 3 (line_search and the box constructor as callees under contract)
+  elfi/methods/posteriors.py
+    RomcPosterior._sum_over_indicators / _sum_over_regions / _sum_over_regions_indicators    any number of problems (counting invariants)
+    RomcPosterior._pdf_unnorm_single_point (both counting modes), _worker_compute_weight, sample (sequential path), any sizes
+  lemmas/c19_lemmas.py: product of positive factors is positive; 0 <= count <= n; sample subset-of contains (from the two contracts)
 
 Spec functions (independent of the code):
-  region(R, c, lo, hi) = { R theta + c : lo <= theta <= hi }     (membership is stated with an explicit witness theta)
-  FL(o)      the objective on the search line, FL(o) = f(th* + o vd)          (uninterpreted, pure)
-  CNT(k)     |{ i < k : pred(i) }| by prefix recursion CNT(0) = 0, CNT(k+1) = CNT(k) + [pred(i)]
-  PR, F(i), Q(i), IN(i)   prior density, i-th distance, i-th region density / membership at the evaluated point (uninterpreted)
+  region(R, c, lo, hi) = { R theta + c : lo <= theta <= hi }.  Membership is stated with explicit witnesses: contains[region-point] takes
+      p := R theta + c with theta in the box and must answer True; contains[any-point] must answer [lo <= y <= hi] for the ghost y := R^-1 (p - c)
+      and p = R y + c must hold, so True is only answered for points of the region.  Together: contains(p) <=> p in region.
+  FL(o) = f(th* + o vd), the objective on the search line (uninterpreted, pure); ghost record of the probes that observed f >= eps.
+  CNT(k) = |{ i < k : pred(i) }| by prefix recursion; PR / F(i) / Q(i) / IN(i): prior density, distance, region density, membership at the point.
+
+Linear algebra (dimension bound 3, labelled): R^-1 R = R R^-1 = I enters as D*D polynomial equations per product (numpy.linalg.inv, assumed).
+The identities R^-1 (R theta + c) - R^-1 c = theta and R (R^-1 (p - c)) + c = p are derived per coordinate by a proof script (class Script):
+each step is an SMT obligation over the few hypotheses it needs, polynomials are named by fresh constants so that the last step of every
+chain is linear.  In proof mode the body is then analysed under the weaker path condition without the bilinear hypotheses (sound); in finitised
+mode (counter-models, vacuity covers) R is a fixed generic rational matrix and R^-1 its exact inverse, so that every counter-model is genuine.
+
+NOT decided - paper lemma for "the density integrates to one":
+  Let B = prod_i [lo_i, hi_i], hi_i > lo_i, R invertible, T(theta) = R theta + c.  region = T(B) is measurable and, by the linear change of
+  variables, lambda(T(B)) = |det R| * prod_i (hi_i - lo_i).  By the contracts below pdf = 1[region] / V with V = prod_i (hi_i - lo_i) > 0, hence
+  integral(pdf) = lambda(T(B)) / V = |det R|.  The density integrates to one iff |det R| = 1, e.g. for every orthonormal R (R^T R = I => det R = +-1).
+  The constructor only asserts full rank; _find_rotation_vector returns numpy.linalg.eig eigenvectors (unit columns, |det R| <= 1 by Hadamard,
+  = 1 iff they are orthogonal).  Neither measure theory nor numpy.linalg is mechanised here.
 """
 MANIFEST = {
     'category': 'proof',
     'text': 'NDimBoundingBox._secure_limits/_compute_volume/pdf, line_search and the RomcPosterior counting / density / weight functions are verified on the '
-            'real source for all dimensions, sizes and values (loop invariants, no bound); NDimBoundingBox.sample and contains are verified against the '
-            'definition region = {R theta + c : lo <= theta <= hi} for every invertible R, centre and limits with all entries symbolic at dimensions 1, 2, 3 '
-            '(per-coordinate nonlinear real arithmetic), which gives sample-subset-of-contains and pdf = 1/volume inside, 0 outside. '
-            'The float(prior.pdf(...)) conversions of posteriors.py are refuted under the installed numpy (defect F6).',
+            'real source for all dimensions, sizes and values (loop invariants, no bound); NDimBoundingBox.__init__/sample/contains and RegionConstructor.build '
+            'are verified against the definition region = {R theta + c : lo <= theta <= hi} for every invertible R, centre and limits with all entries symbolic at '
+            'dimensions 1, 2, 3 (per-coordinate nonlinear real arithmetic), which gives sample-subset-of-contains and pdf = 1/volume inside, 0 outside. '
+            'The float(prior.pdf(...)) conversions of posteriors.py are refuted under the installed numpy (defect F6) until repaired.',
     'note': 'Trusted: pyvc engine and numpy spec table, scipy uniform.rvs in [loc, loc+scale], numpy.linalg.inv (both products are the identity) and '
-            'ModelPrior.pdf returning one value per row (sanity-tested each run); floats are reals (a draw on a face of the box can fall outside in floats). '
-            'Dimension bound 3 for the linear-algebra clauses; dims 1-4 with random orthonormal rotations in the bounded stand-in. '
-            'NOT proved: the density integrates to one (measure theory, needs |det R| = 1); _find_rotation_vector (numpy.linalg).',
-    'technique': 'deductive: loop-invariant VCs from the real AST (pyvc), NRA per coordinate for D <= 3, ghost lemma functions, z3/cvc5; '
-                 'bounded: random orthonormal rotations dims 1-4, step objectives, direct RomcPosterior construction',
+            'ModelPrior.pdf returning one value per row (sanity-tested each run); floats are reals (a draw on a face of the box can fall outside in floats); '
+            'objectives pure. Dimension bound 3 for the linear-algebra clauses; dims 1-4 with random orthonormal rotations in the bounded stand-in. '
+            'line_search: full clause under f(th*) < eps and rep_lim >= 0, positivity unconditionally; termination not proved. '
+            'NOT proved: the density integrates to one (measure theory, = |det R|, needs |det R| = 1); _find_rotation_vector (numpy.linalg).',
+    'technique': 'deductive: loop-invariant VCs from the real AST (pyvc), NRA proof script per coordinate for D <= 3, ghost lemma functions, z3/cvc5; '
+                 'bounded: random orthonormal rotations dims 1-4, step objectives, direct RomcPosterior construction with a real ModelPrior',
 }
 
 import z3
@@ -422,6 +438,13 @@ class Script:
         _conjuncts(fact, self.known)
         return fact
 
+    def define(self, name, term):
+        """ghost definition: a FRESH constant naming a polynomial (conservative extension); returns (constant, defining equation)"""
+        c = self.vc.fresh(name, R_)
+        d = c == term
+        _conjuncts(d, self.known)
+        return c, d
+
     def export(self, fact):
         if not _conjuncts(fact, set()) <= self.known:
             raise OutOfSubset('export of an unproved fact')
@@ -487,23 +510,29 @@ class Contains(Contract):
         """runs once, after the preconditions are assumed and before the body: the linear-algebra steps (proof script)"""
         vc, b, D, h = cur(), s.b, self.D, self._hyps(s)
         ps = Script(vc)
+        # Every step is kept small on purpose: pure real obligations go to z3's nlsat, whose cost grows with the number of variables,
+        # and z3 rewrites  x*poly == 0  into a disjunction.  Polynomials are therefore NAMED by fresh constants (ghost definitions),
+        # the bilinear work is done in steps that see only the definitions and hypotheses they need, and the last step of each chain is linear.
         if self.case == 'region-point':
             for i in range(D):
-                A = [ps.step('R^-1[%d,%d] times the equation of p_%d' % (i, k, k), [h.pdef[k]],
-                             b.Rinv[i][k] * s.p[k] == _ssum([b.Rinv[i][k] * b.R[k][j] * s.th[j] for j in range(D)]) + b.Rinv[i][k] * b.c[k]) for k in range(D)]
-                B = [ps.step('(R^-1 R)[%d,%d] times theta_%d' % (i, j, j), [h.RinvR[i][j]],
-                             _ssum([b.Rinv[i][k] * b.R[k][j] * s.th[j] for k in range(D)]) == (s.th[j] if i == j else 0)) for j in range(D)]
-                ps.export(ps.step('(R^-1 p - R^-1 c)_%d = theta_%d' % (i, i), A + B,
-                                  _ssum([b.Rinv[i][k] * s.p[k] for k in range(D)]) - _ssum([b.Rinv[i][k] * b.c[k] for k in range(D)]) == s.th[i]))
+                u, du = ps.define('u%d' % i, _ssum([b.Rinv[i][k] * s.p[k] for k in range(D)]))                                   # (R^-1 p)_i
+                v, dv = ps.define('v%d' % i, _ssum([b.Rinv[i][k] * b.c[k] for k in range(D)]))                                   # (R^-1 c)_i
+                t, dt = ps.define('t%d' % i, _ssum([b.Rinv[i][k] * b.R[k][j] * s.th[j] for k in range(D) for j in range(D)]))    # (R^-1 R theta)_i
+                A = ps.step('(R^-1 p)_%d = (R^-1 R theta)_%d + (R^-1 c)_%d, from p = R theta + c' % (i, i, i), h.pdef + [du, dv, dt], u == t + v)
+                B = ps.step('(R^-1 R theta)_%d = theta_%d, from R^-1 R = I' % (i, i), h.RinvR[i] + [dt], t == s.th[i])
+                F = ps.step('(R^-1 p)_%d - (R^-1 c)_%d = theta_%d' % (i, i, i), [A, B], u - v == s.th[i])
+                for f in (du, dv, F):
+                    ps.export(f)
         else:
             for k in range(D):
-                C = [ps.step('R[%d,%d] times the definition of y_%d' % (k, i, i), [h.ydef[i]],
-                             b.R[k][i] * s.y[i] == _ssum([b.R[k][i] * b.Rinv[i][m] * s.p[m] - b.R[k][i] * b.Rinv[i][m] * b.c[m] for m in range(D)])) for i in range(D)]
-                Dp = [ps.step('(R R^-1)[%d,%d] times p_%d' % (k, m, m), [h.RRinv[k][m]],
-                              _ssum([b.R[k][i] * b.Rinv[i][m] * s.p[m] for i in range(D)]) == (s.p[m] if k == m else 0)) for m in range(D)]
-                Dc = [ps.step('(R R^-1)[%d,%d] times c_%d' % (k, m, m), [h.RRinv[k][m]],
-                              _ssum([b.R[k][i] * b.Rinv[i][m] * b.c[m] for i in range(D)]) == (b.c[m] if k == m else 0)) for m in range(D)]
-                s.image.append(ps.step('(R y + c)_%d = p_%d' % (k, k), C + Dp + Dc, s.p[k] == _ssum([b.R[k][i] * s.y[i] for i in range(D)]) + b.c[k]))
+                a, da = ps.define('a%d' % k, _ssum([b.R[k][i] * s.y[i] for i in range(D)]))                                                                  # (R y)_k
+                t2, d2 = ps.define('rp%d' % k, _ssum([b.R[k][i] * b.Rinv[i][m] * s.p[m] for i in range(D) for m in range(D)]))      # (R R^-1 p)_k
+                t3, d3 = ps.define('rc%d' % k, _ssum([b.R[k][i] * b.Rinv[i][m] * b.c[m] for i in range(D) for m in range(D)]))      # (R R^-1 c)_k
+                C = ps.step('(R y)_%d = (R R^-1 p)_%d - (R R^-1 c)_%d, from the definition of y' % (k, k, k), h.ydef + [da, d2, d3], a == t2 - t3)
+                Dp = ps.step('(R R^-1 p)_%d = p_%d, from R R^-1 = I' % (k, k), h.RRinv[k] + [d2], t2 == s.p[k])
+                Dc = ps.step('(R R^-1 c)_%d = c_%d, from R R^-1 = I' % (k, k), h.RRinv[k] + [d3], t3 == b.c[k])
+                F = ps.step('(R y)_%d = p_%d - c_%d' % (k, k, k), [C, Dp, Dc], a == s.p[k] - b.c[k])
+                s.image += [da, F]
         if vc.fin is None:
             # proof mode: the bilinear hypotheses have done their work in the script; the body is analysed under the WEAKER path condition
             # without them (sound: fewer assumptions), which keeps the comparisons of the body in linear arithmetic over the monomials
@@ -536,6 +565,90 @@ class Contains(Contract):
         if self.case == 'region-point':
             w['theta'] = [ev(x) for x in consts('theta', self.D)]
         return w
+
+
+RANK = z3.Int('matrix_rank')
+
+
+class Init(Contract):
+    """the constructor establishes the class invariant that the other contracts of the region require: limits secured (>= 0.001 wide),
+    rotation_inv the inverse of rotation, volume > 0.  _secure_limits / _compute_volume are callees under contract; numpy.linalg is assumed."""
+    target = ROMC + '::NDimBoundingBox.__init__'
+    prop = 'C19'
+    fin = 4
+
+    def __init__(self, D):
+        self.D = D
+        self.label = 'D%d' % D
+
+    def setup(self, vc):
+        D = self.D
+        b = Box(D)
+        lim0 = consts('given', D, 2)
+        rot, cen, lim_arg = mat(b.R), vec(b.c), mat(lim0)
+        s = NS(b=b, lim0=lim0, rot=rot, cen=cen, sec=None)
+        old = lim_arg.snapshot()
+
+        def secure(self_, limits):
+            # contract SecureLimits
+            cur().oblige('call-pre[_secure_limits: the given limits with lo <= 0 <= hi]', z3.And([z3.BoolVal(limits is lim_arg)] + [z3.And(lim0[i][0] <= 0, lim0[i][1] >= 0) for i in range(D)]))
+            s.sec = mat(b.lim)
+            cur().assume(z3.And([row_ok(s.sec, old, i) for i in range(D)]))
+            return s.sec
+
+        def volume(self_):
+            # contract ComputeVolume
+            lim = getattr(self_, 'limits', None)
+            cur().oblige('call-pre[_compute_volume: self.limits are the secured limits]', z3.BoolVal(lim is s.sec and lim is not None))
+            cur().assume(b.V > 0)
+            return SReal(b.V)
+
+        class _Linalg:
+            @staticmethod
+            def matrix_rank(a):
+                cur().oblige('call-pre[matrix_rank of the rotation]', z3.BoolVal(a is rot))
+                cur().assume(z3.And(RANK >= 0, RANK <= D))
+                return SInt(RANK)
+
+            @staticmethod
+            def inv(a):
+                cur().oblige('call-pre[inv of the full-rank rotation]', z3.And(z3.BoolVal(a is rot), RANK == D))
+                cur().assume(z3.And(is_identity(b.Rinv, b.R), is_identity(b.R, b.Rinv)))      # numpy.linalg.inv (assumed)
+                return mat(b.Rinv)
+        s.np = np_module(linalg=_Linalg)
+        s.self = make_object('NDimBoundingBox', methods=dict(_secure_limits=secure, _compute_volume=volume))
+        vc._s19i = s
+        return s, (s.self, rot, cen, lim_arg), {}
+
+    def env(self, vc):
+        return dict(np=vc._s19i.np)
+
+    def requires(self, s):
+        out = [z3.And([z3.And(s.lim0[i][0] <= 0, s.lim0[i][1] >= 0) for i in range(self.D)])]
+        if cur().fin is not None:
+            out.append(s.b.pinned())        # finitised mode: generic rational rotation and its exact inverse (see _GENERIC)
+        return out
+
+    def raises(self, s):
+        return {'AssertionError': RANK != self.D}
+
+    def iff_raises(self, s):
+        return [('constructed only for a full-rank rotation', RANK == self.D)]
+
+    def ensures(self, s, result):
+        o, b, D = s.self, s.b, self.D
+        g = lambda k: getattr(o, k, None)
+        if not (g('rotation') is s.rot and g('center') is s.cen and g('limits') is s.sec and s.sec is not None and isinstance(g('rotation_inv'), SArr)):
+            return [('attributes rotation, center, limits (secured), rotation_inv, volume are set', z3.BoolVal(False))]
+        ri = o.rotation_inv
+        Ri = [[ri.at(i, j) for j in range(D)] for i in range(D)]
+        return [('dim = D', T(o.dim) == D),
+                ('limits are the secured limits: every dimension at least 0.001 wide', z3.And([o.limits.at(i, 1) - o.limits.at(i, 0) >= EPS_W for i in range(D)])),
+                ('rotation_inv is the inverse of rotation', z3.And(is_identity(Ri, b.R), is_identity(b.R, Ri))),
+                ('volume > 0', _real(o.volume) > 0)]
+
+    def witness(self, vc, model, ob):
+        return dict(function='box', D=self.D)
 
 
 INSIDE = z3.Bool('inside')
@@ -1327,10 +1440,10 @@ class PosteriorSample(Contract):
                         forall_range(0, s.N, lambda a: forall_range(0, s.n2, lambda c: w.at(a, c) == self._w(s, a, c), 'c'), 'a')))]
 
     def witness(self, vc, model, ob):
-        return dict(function='sample', dim=2)
+        return dict(function='RomcPosterior.sample', dim=2)
 
 
-CONTRACTS = ([SecureLimits(), ComputeVolume(), LemmaProdPositive(), Pdf()]
+CONTRACTS = ([SecureLimits(), ComputeVolume(), LemmaProdPositive(), Pdf()] + [Init(D) for D in DIMS]
              + [Sample(D) for D in DIMS] + [Contains(D, c) for D in DIMS for c in ('region-point', 'any-point')]
              + [LemmaSampleInside(D) for D in DIMS]
              + [LineSearch('start-below'), LineSearch('any-start')] + [Build(D) for D in DIMS]
@@ -1352,7 +1465,7 @@ ASSUMPTIONS = ['A-REAL: floats are mathematical reals. In floats a draw on a fac
                'RomcPosterior class invariant: one objective and one region per accepted problem (len(funcs) == len(regions)); sample: sequential path (parallelize is False); '
                'the multiprocessing path maps _worker_compute_weight, which is under contract, over the regions']
 NOT_PROVED = ['"density integrates to one" (title): the integral of pdf = 1[contains]/volume over R^D is vol(R.B + c)/prod(widths) = |det R|; it is one iff |det R| = 1 '
-              '(change of variables, paper lemma in the module docstring of bounded/c19.py is NOT mechanised); NDimBoundingBox only asserts full rank',
+              '(change of variables; paper lemma in the docstring of contracts/c19.py, NOT mechanised); NDimBoundingBox only asserts full rank',
               '_find_rotation_vector returns a full-rank matrix of search directions: numpy.linalg (eig, matrix_rank), assumed',
               'samples are uniformly distributed in the region (not claimed by the property; note: sample() passes the SAME seed to every dimension)']
 
@@ -1411,7 +1524,7 @@ def replay_refuted(cname, rf):
                 if k in cname:
                     fn = k
             if 'RomcPosterior.sample' in cname:
-                fn = 'sample'
+                fn = 'RomcPosterior.sample'
             surr = [True] if 'surrogate' in cname else [False] if 'actual' in cname else [False, True]
             r = dict(found=False, searched='dims 2, 1, 3; seeds 0-3')
             for D, sd, su in [(D, sd, su) for D in (2, 1, 3) for sd in range(4) for su in surr]:
